@@ -216,6 +216,7 @@ static void run(bool isclient, const std::string& s)
 		while (!ws.closed()) {
 			WebSocketMsg m = ws.receive();
 			VF_ORACLE(m.length() >= 0, "receive() returned a message of length ", m.length());
+			VF_ORACLE((*m) != 0 && (*m)[m.length()] == 0, "receive() result of ", m.length(), " bytes without the terminating NUL of its C-string view");
 			if (m.length() > 0) {
 				ByteArray b = m;
 				unsigned sum = 0;
